@@ -431,13 +431,25 @@ func (x *Exec) localSV(st *State, fr *Frame, name string) (SV, bool) {
 		}
 	}
 	seen := 0
+	explicit := strings.IndexByte(name, '#') > 0
 	var found *ssa.Alloc
 	for _, b := range fr.fn.Blocks {
 		for _, ins := range b.Instrs {
 			if a, ok := ins.(*ssa.Alloc); ok && a.Comment == base {
 				seen++
-				if seen == want {
-					found = a
+				if explicit {
+					if seen == want {
+						found = a
+					}
+					continue
+				}
+				// without an ordinal: the first variable of that name that is live on this path
+				if found == nil {
+					if _, ok := st.cells[a]; ok {
+						found = a
+					} else if _, ok := st.vals[a]; ok {
+						found = a
+					}
 				}
 			}
 		}
